@@ -132,7 +132,18 @@ let dump_ok (o : opened) (file : string) (maxdata : BZ.t) (getsize : z) =
           done
         end else grab bg nb;
         if !ok then Printf.printf "data %d 0 %s %s\n" i (BZ.to_string nb) (hexblob (Buffer.contents buf))
-        else Printf.printf "data %d ? %s ?\n" i (BZ.to_string nb)
+        else Printf.printf "data %d ? %s ?\n" i (BZ.to_string nb);
+        (* every record read separately: record r of this variable is at begin + r * recsize *)
+        if isrec && BZ.geq numrecs BZ.one && BZ.leq numrecs (BZ.of_int 64) && List.length shape <= 64 then begin
+          let per = (match lens with _ :: r -> List.fold_left BZ.mul BZ.one r | [] -> BZ.one) in
+          let perb = BZ.mul per (BZ.of_int esz) in
+          let rs = big lay.l_recsize in
+          for r = 0 to BZ.to_int numrecs - 1 do
+            let off = BZ.add bg (BZ.mul (BZ.of_int r) rs) in
+            if BZ.sign off < 0 || BZ.gt (BZ.add off perb) flen then Printf.printf "rec %d %d ? ?\n" i r
+            else Printf.printf "rec %d %d 0 %s\n" i r (hexblob (String.sub file (BZ.to_int off) (BZ.to_int perb)))
+          done
+        end
       end) h.h_vars;
   Printf.printf "close 0\n"
 
